@@ -410,3 +410,10 @@ def rule_g(ctx, cr):
                       "argument turns into a huge position/count instead of an error "
                       "(INSTR(-1,..) answers 0)" % (f.describe(rv["op"])[:60], rv["to"]))
     ctx.floor("C07.g", "signed->unsigned casts", n, 9)
+    # the float arms of the same conversions: both range tests in a form NaN cannot pass (C08.c)
+    from rules import c08, common
+    k = 0
+    for p, f in sorted(cr.fns.items()):
+        if re.match(r"^<(u8|u16|u32|u64|usize) as std::convert::TryFrom<mach::val::Val>>", p):
+            k += c08.rule_c(common.Proxy(ctx, "C07.g"), f)
+    ctx.floor("C07.g", "float->unsigned casts in the count/position conversions", k, 3)
